@@ -1147,3 +1147,40 @@ def eof_exits(chk, F, reach, rule="loop-leaves-on-eof"):
                            "has no exit on the Eof token" if tested else "never inspects the token for Eof"))
     if n < 6:
         chk.anchor_lost(rule, "rink_core parsers", "only %d token-pulling loops found in the reachable parser functions (expected >= 6: parse_function, parse_suffix, parse_juxt, parse_div, parse_add, parse_unitlist)" % n)
+
+
+# =========================================================================================
+# thorough tier: line inventory for the clippy cross-check
+# =========================================================================================
+class LineInventory:
+    def __init__(self):
+        self.fn_ranges = {}     # file -> [(lo, hi)]
+        self.sites = {}         # file -> [(lo, hi, what)]
+
+    def in_analysed_fn(self, f, line):
+        return any(lo <= line <= hi for lo, hi in self.fn_ranges.get(f, ()))
+
+    def has_site(self, f, l0, l1):
+        return any(lo <= l1 and l0 <= hi for lo, hi, _ in self.sites.get(f, ()))
+
+
+def inventory_lines(F):
+    inv = LineInventory()
+    seen = set()
+    for which in ("C04", "C13"):
+        G, rs, reach, sites = inventory(F, which)
+        for fid in reach:
+            fn = F.fns[fid]
+            if fn.crate != CORE or fid in seen:
+                continue
+            seen.add(fid)
+            lo, hi = fn.loc["line"], fn.loc.get("eline", fn.loc["line"])
+            for b in fn.blocks:
+                for l in [b["term"]["loc"]] + [st["loc"] for st in b["stmts"] if "loc" in st]:
+                    if l.get("file") == fn.file and "exp" not in l:
+                        lo, hi = min(lo, l["line"]), max(hi, l.get("eline", l["line"]))
+            inv.fn_ranges.setdefault(fn.file, []).append((lo, hi))
+        for s in sites:
+            l = s.term["loc"]
+            inv.sites.setdefault(l["file"], []).append((l["line"], l.get("eline", l["line"]), s.what))
+    return inv
